@@ -83,6 +83,20 @@ def pstep (s : OSetPtr.Store) (op : Sexp) : OSetPtr.Store × Sexp :=
   | none =>
     match op with
     | list (sym "in" :: xs) => (s, list ((nats xs).map fun k => ofBool (OSetPtr.ptrMem k s)))
+    | list [sym "pop-first"] =>
+      match OSetPtr.ptrFirst s with
+      | some k => (OSetPtr.discard k s, ofNat k)
+      | none => (s, sym "KeyError")
+    | list (sym "iter-rm-add" :: int fr :: xs) =>
+      -- "replace the visited element": the body discards the visited element when it is in `xs` and below 1000 and fewer
+      -- than 4 were replaced, and adds fr, fr+1, …; the fuel is the one of `iter_replace_current` (> 2·|L|)
+      let ks := nats xs
+      let r := OSetPtr.iterReplace (fun k => decide (k ∈ ks) && decide (k < 1000)) fr.toNat 4 (2 * s.fresh + 1) s (s.next 0) 0
+      (r.2, ofNats r.1)
+    | list (sym "riter-rm-add" :: int fr :: xs) =>
+      let ks := nats xs
+      let r := OSetPtr.reversedReplace (fun k => decide (k ∈ ks) && decide (k < 1000)) fr.toNat 4 s.fresh s (s.prev 0) 0
+      (r.2, ofNats r.1)
     | _ => (s, sym "bad-op")
 
 def prun (ops : List Sexp) : Sexp :=
